@@ -64,11 +64,16 @@ info('C01',
       'ibinary_blockwise merge loop: bounded only so far'],
      [A_BUILD], configs=BOTH)
 info('C02',
-     'P: shared obligations of C01 (_iter_common_sorted precondition/postcondition). '
+     'P: shared obligations of C01 (_iter_common_sorted precondition/postcondition); LegCharge.bunch / sort / extend and the conj / flip / '
+     'outer_conj family: the flags `sorted` / `bunched` that a leg-returning method sets or keeps are true of the charges it returns '
+     '(contracts/c_legs.py). '
      'B (bounded, not proof): after every step of generated operation histories (incl. in-place methods, shallow copies) '
      'test_sanity() passes and every cached claim (sorted, bunched, _qdata_sorted), recomputed from its definition, is truthful; '
      'all LegCharge constructors/transformations; qtotal is the documented function; both configurations.',
-     ['flag protocol as deductive obligations over charges.py: not yet under contract (bounded only)'],
+     ['flag protocol: under contract for LegCharge.bunch / sort / extend / conj / flip_charges_qconj and LegPipe.conj / outer_conj; project, '
+      'from_qflat / from_qind / from_qdict, LegPipe construction and the `_qdata_sorted` claims of Array: bounded only',
+      'assumed for those contracts: np.lexsort returns an ordering permutation, np.cumsum / np.append / slice assignment, the contract of '
+      '_find_row_differences as proved for the compiled kernel; ind_len of a sorted leg (sum over a permutation) is not discharged'],
      [A_BUILD], configs=BOTH)
 info('C03',
      'P: frame and freshness of the leg-returning methods, real source on a symbolic leg / pipe over two incoming legs: LegCharge.copy, '
@@ -127,7 +132,8 @@ info('C06',
      'truthful flags; sort/bunch/project/extend/flip/conj preserve the charge of every surviving index; several pipes at once; pipes of '
      'pipes (conjugation flips every level, splitting level by level gives the legs of the conjugate, contraction with the conjugate); '
      'both configurations. P also: LegCharge/LegPipe copy, conj, flip_charges_qconj, outer_conj incl. LegPipe.conj on a nested pipe '
-     '(contracts/c_legs.py), inverse_permutation.',
+     '(contracts/c_legs.py), inverse_permutation; LegCharge.bunch / sort / extend: every index keeps its charge (block-wise: same charge, same size, '
+     'documented order).',
      ['LegPipe._init_from_legs / map_incoming_flat as deductive obligations: not built (bounded only)',
       'quick tier strides through the pair domain (every 11th pair); only the thorough tier is exhaustive'],
      [A_BUILD], configs=BOTH)
